@@ -1,122 +1,120 @@
 """C09 — inlining, specialisation and hoisting preserve results."""
 from __future__ import annotations
+import itertools
 from xform import *   # noqa
-from fpy2 import strategies as S
+import xgen
 
 PROP = 'C09'
 
-MONO = ['fp.FP64', 'fp.FP32', 'fp.IEEEContext(5, 16, fp.RM.RTZ)', 'fp.MPFloatContext(4, fp.RM.RNA)']
+MONO = ['fp.FP64', 'fp.FP32', 'fp.IEEEContext(5, 16, fp.RM.RTZ)', 'fp.MPFloatContext(4, fp.RM.RNA)', 'fp.FP8P4', 'fp.BF16', 'fp.MPFixedContext(-3, fp.RM.RTP)',
+        'fp.IEEEContext(8, 32, fp.RM.RAZ)', 'fp.MPFloatContext(2, fp.RM.RTO)', 'fp.REAL']
+CORE = ['inline()', 'inline(recursive=False)', 'close()', 'lift_context()']
 
-def recipes():
-    rs = [('inline[all]', lambda fn, R: S.inline(fn)),
-          ('inline[all,one-level]', lambda fn, R: S.inline(fn, recursive=False)),
-          ('close', lambda fn, R: S.close(fn)),
-          ('lift_context', lambda fn, R: S.lift_context(fn)),
-          ('inline;lift_context', lambda fn, R: S.lift_context(S.inline(fn))),
-          ('inline;simplify', lambda fn, R: S.simplify(S.inline(fn))),
-          ('lift_context;inline', lambda fn, R: S.inline(S.lift_context(fn)))]
-    for j in (0, 1, 2, 3):
-        rs.append((f'inline[{j}]', lambda fn, R, j=j: S.inline(fn, j)))
-        rs.append((f'inline[{j},one-level]', lambda fn, R, j=j: S.inline(fn, j, recursive=False)))
-    return rs
+def all_recipes(prog, R):
+    ext = []
+    for rec in (True, False):
+        for w in (0, 1, 2, 3, 4, ('site', 0), ('site', 1), ('site', 2), ('stmt', 1), ('stmt', 2), ('stmt', 4), ('body',), ('tail',)):
+            ext.append(f'inline(where={w!r}, recursive={rec})')
+        for fs in ('first', 'last', 'all'):
+            ext += [f'inline(funcs={fs!r}, recursive={rec})', f'inline(where=0, funcs={fs!r}, recursive={rec})']
+        ext += [f'FuncInline(recursive={rec})', f'FuncInline(recursive={rec}, shared=True)', f'FuncInline(where=0, recursive={rec})',
+                f"FuncInline(funcs='first', recursive={rec}, shared=True)", f'inline_each(recursive={rec})']
+    ext += ["single('FreeVarElim')", "single('LiftContext')", 'LiftContext(shared=True)', 'repeat(lift_context(), 2)', 'repeat(close(), 2)', 'repeat(inline(recursive=False), 2)',
+            'repeat(inline(recursive=False), 3)', 'seq(inline(0), inline(0))', 'seq(inline(1), inline(0))', "fwd(inline(0), 'inline', ('site', 1))",
+            "fwd(inline(0, recursive=False), 'inline', ('site', 2), recursive=False)", "fwd(inline(1), 'inline', ('site', 0))", "fwd(lift_context(), 'inline', ('site', 0))",
+            "fwd(close(), 'inline', ('site', 1))"]
+    basics = ['inline()', 'lift_context()', 'close()', 'simplify()', 'inline(recursive=False)']
+    for a, b in itertools.permutations(basics, 2): ext.append(f'seq({a}, {b})')
+    ext += ['seq(inline(), lift_context(), simplify())', 'seq(close(), inline(), lift_context())', 'seq(lift_context(), close(), inline(), simplify())',
+            'seq(inline(), unroll_for(times=1))', 'seq(inline(), elim_iter(), fuse())', "seq(inline(), single('ConstFold'))", "seq(inline(), single('DeadCodeEliminate'))",
+            "seq(inline(), single('CopyPropagate'))"]
+    if not prog.get('pinned'):
+        for c in MONO:
+            ext += [f'mono({c!r})']
+        for c in R.sample(MONO, 4):
+            ext += [f"mono({c!r}, args='infer')", f"mono({c!r}, args='none')", f'Monomorphize({c!r})', f'seq(mono({c!r}), simplify())', f'seq(mono({c!r}), inline())',
+                    f'seq(inline(), mono({c!r}))', f'seq(mono({c!r}), lift_context())']
+    return CORE, ext
 
-def _calls_in(e):
-    """FPy-function calls occurring anywhere inside expression e"""
-    from fpy2.ast import fpyast as A
-    from fpy2.function import Function
-    out = []
-    def walk(x):
-        if isinstance(x, A.Call) and isinstance(x.fn, Function): out.append(x)
-        for attr in getattr(type(x), '__slots__', ()):
-            v = getattr(x, attr, None)
-            if isinstance(v, A.Expr): walk(v)
-            elif isinstance(v, (list, tuple)):
-                for y in v:
-                    if isinstance(y, A.Expr): walk(y)
-                    elif isinstance(y, tuple):
-                        for z in y:
-                            if isinstance(z, A.Expr): walk(z)
-    walk(e)
-    return out
+PRE = ['simplify()', 'unroll_for(times=1)', "single('ConstFold')", 'elim_iter()', 'unroll_while(times=1)']
 
-def has_hoisted_conditional_call(fn) -> bool:
-    """does the function (or a callee) call an FPy function from a position that is evaluated conditionally or
-    repeatedly: a comprehension element / later generator, an if-expression branch, a non-first `and`/`or`
-    operand, a non-first-two operand of a comparison chain?  (the inliner splices the callee body BEFORE the
-    statement, i.e. unconditionally and once)"""
-    from fpy2.ast import fpyast as A
-    from fpy2.function import Function
-    seen = set()
-    def in_func(f) -> bool:
-        if id(f.ast) in seen: return False
-        seen.add(id(f.ast))
-        found = False
-        def walk_e(x):
-            nonlocal found
-            if isinstance(x, A.ListComp):
-                if _calls_in(x.elt) or any(_calls_in(it) for it in x.iterables[1:]): found = True
-            if isinstance(x, A.IfExpr):
-                if _calls_in(x.ift) or _calls_in(x.iff): found = True
-            if isinstance(x, (A.And, A.Or)):
-                if any(_calls_in(a) for a in x.args[1:]): found = True
-            if isinstance(x, A.Compare) and len(x.args) > 2:
-                if any(_calls_in(a) for a in x.args[2:]): found = True
-            if isinstance(x, A.Call) and isinstance(x.fn, Function):
-                if in_func(x.fn): found = True
-            for attr in getattr(type(x), '__slots__', ()):
-                v = getattr(x, attr, None)
-                if isinstance(v, A.Expr): walk_e(v)
-                elif isinstance(v, (list, tuple)):
-                    for y in v:
-                        if isinstance(y, A.Expr): walk_e(y)
-                        elif isinstance(y, tuple):
-                            for z in y:
-                                if isinstance(z, A.Expr): walk_e(z)
-        def walk_s(b):
-            for st in b.stmts:
-                for attr in getattr(type(st), '__slots__', ()):
-                    v = getattr(st, attr, None)
-                    if isinstance(v, A.Expr): walk_e(v)
-                    elif isinstance(v, A.StmtBlock): walk_s(v)
-                    elif isinstance(v, (list, tuple)):
-                        for y in v:
-                            if isinstance(y, A.Expr): walk_e(y)
-        walk_s(f.ast.body)
-        return found
-    return in_func(fn)
+def recipes_for_factory(tier):
+    def recipes_for(prog, R):
+        core, ext = all_recipes(prog, R)
+        if tier == 'quick':
+            monos = [e for e in ext if 'mono' in e.lower()]
+            return core + R.sample(ext, 10) + R.sample(monos, min(3, len(monos)))
+        return core + ext
+    return recipes_for
 
-def classify(d):
-    if 'inline' in d['strategy'] and d.get('_fn') is not None and has_hoisted_conditional_call(d['_fn']):
-        return 'F34'
+def _has_negative_zero(v) -> bool:
+    import math
+    if isinstance(v, float): return v == 0 and math.copysign(1.0, v) < 0
+    if isinstance(v, (tuple, list)): return any(_has_negative_zero(x) for x in v)
+    return False
+
+def _ctor_shapes(fn):
+    """(has a context constructor with arithmetic in its arguments, has one whose arguments read a variable)"""
+    arith = var = False
+    from fpy2.transform.path import sub_exprs
+    def walk(e):
+        yield e
+        for _, _, x in sub_exprs(e): yield from walk(x)
+    for _, e in T.walk_exprs(fn.ast):
+        if isinstance(e, A.Call) and isinstance(e.fn, type) and issubclass(e.fn, fp.Context):
+            for a in list(e.args) + [v for _, v in e.kwargs]:
+                for x in walk(a):
+                    if isinstance(x, (A.Add, A.Sub, A.Mul, A.Div, A.Neg, A.Len)): arith = True
+                    if isinstance(x, A.Var) and str(x.name) not in ('fp',) and not isinstance(getattr(fn.ast.env, 'get', lambda k: None)(str(x.name)), type(fp)): var = True
+    return arith, var
+
+def classify(d, fn, xf):
+    # F55 / F56: known lift_context defects (hoisted `ctx = <constructor>` evaluated under the ambient context instead of REAL;
+    # binding hoisted above the definitions its expression reads)
+    if 'lift_context' in d['strategy'] or 'LiftContext' in d['strategy']:
+        arith, var = _ctor_shapes(fn)
+        if var and d['transformed_result'] in ('err KeyError', 'err Unbound', 'err NameError', 'err UnboundLocalError'): return 'F56'
+        if arith and (fn.ast.ctx is not None or xf.ast.ctx is not None or d['ctx'] is not None): return 'F55'
+    # F59: close() materialises a captured Python float -0.0 as the literal 0 (sign of zero lost)
+    if 'close' in d['strategy'] or 'FreeVarElim' in d['strategy']:
+        try:
+            env = fn.ast.env
+            if any(str(fv) in env and _has_negative_zero(env[str(fv)]) for fv in fn.ast.free_vars): return 'F59'
+        except Exception:
+            pass
     return None
 
-def run(rep, tier, seed):
-    rs = recipes()
-    run_xforms(rep, tier, seed, PROP, 'c09_corpus.py', rs, gen_programs=25 if tier == 'quick' else 300,
-               n_inputs=5 if tier == 'quick' else 8, call_ctxs=(None, 'fp.IEEEContext(5, 16, fp.RM.RTZ)'), classify=classify)
-    # monomorphize: f(*args, ctx=C) versus monomorphize(f, C)(*args)
-    mono_check(rep, tier, seed)
-    rep.cov['rule'] = ('corpus (callee with/without own context inside nested with, list-mutating callee, name clashes, calls in loops, argument order with side effects, hoistable contexts) '
-                       '+ random caller/callee programs; inline all / by index / one level, close, lift_context, compositions; monomorphize compared as f(args, ctx=C) vs pinned(args); '
-                       'distinct = distinct (program, strategy, input, ctx)')
+def build_programs(seed, tier):
+    R = Prng(seed, 'C09:progs')
+    n_main, n_other = (480, 120) if tier == 'quick' else (400, 100)
+    sc = float(os.environ.get('VERIF_XGEN_SCALE', '1'))   # debugging aid: shrink the run
+    n_main, n_other = int(n_main * sc), int(n_other * sc)
+    progs = corpus_progs('c09_corpus.py', R, ctxs=(None, 'fp.IEEEContext(5, 16, fp.RM.RTZ)'))
+    stats = {}
+    for prop, n, frac in (('C09', n_main, 0.15), ('C07', n_other // 2, 0.0), ('C08', n_other - n_other // 2, 0.0)):
+        ps, st = xgen.programs(prop, seed, n)
+        for k, v in st.items(): stats[f'{prop}:{k}'] = v
+        for p in ps:
+            d = p.to_dict()
+            d['args'] = p.args + xgen.random_args(R, p.kinds, 3)
+            if R.random() < frac:
+                d['pre'] = R.choice(PRE); d['loops'] = None
+            progs.append(d)
+    return progs, stats
 
-def mono_check(rep, tier, seed):
-    R = Prng(seed, 'C09m')
-    corp = load_module(os.path.join(os.path.dirname(__file__), 'corpus', 'c09_corpus.py'), 'fpyverif_C09_corpus_m')
-    for fn in corp.ALL:
-        kinds = arg_kinds(fn)
-        for cs in MONO:
-            ctx = eval(cs, {'fp': fp})
-            try:
-                xf = with_timeout(lambda: S.monomorphize(fn, ctx), 20)
-            except Exception as e:
-                rep.count(f'declined:monomorphize:{type(e).__name__}'); continue
-            rep.count('applied:monomorphize')
-            for args in gen_inputs(R, kinds, 5):
-                want = run_real(fn, args, ctx); got = run_real(xf, args, None)
-                rep.cov['evaluations'] += 1
-                rep.distinct.add((fn.ast.name, 'mono', cs, repr(args)))
-                if want.startswith('ok') and got != want:
-                    rep.violation(f'monomorphize({cs}): f(args, ctx=C) returns {want[:80]} but the pinned function gives {got[:80]}',
-                                  {'program': fn.ast.name, 'strategy': f'monomorphize {cs}', 'args': repr(args), 'original_result': want,
-                                   'transformed_result': got, 'transformed': describe(xf), 'finding': None})
+def run(rep, tier, seed):
+    progs, stats = build_programs(seed, tier)
+    opts = {'inputs_cap': 7 if tier == 'quick' else None, 'ctx_every': 3 if tier == 'quick' else 2, 'max_traces': 5 if tier == 'quick' else 10,
+            'deadline_s': 900 if tier == 'quick' else 3600, 'prog_budget': 60 if tier == 'quick' else 240}
+    run_xforms(rep, tier, seed, PROP, progs, recipes_for_factory(tier), classify=classify, opts=opts)
+    summarize_cov(rep, stats)
+    rep.cov['rule'] = ('hand-written corpus + feature-axis synthesised caller/callee programs (xgen: callee leaf / own context / list-mutating / return inside with / several returns / '
+                       'chain / clashing local and gensym-like names / free variables / loop body / tuple result, called from assignments, loops, nested with, argument expressions with '
+                       'side effects, if and while conditions, comprehension elements, if-expressions, later and/or and comparison-chain operands, effect statements; module-level data for '
+                       'close; context constructors in loops for lift_context) + the loop and simplify programs; inline all / by index / by expression, statement and region cursor / funcs '
+                       'filter / one level / one site at a time, FuncInline, close, lift_context, compositions in both orders, cursors forwarded across a pass; monomorphize (10 contexts, '
+                       'with and without argument types) judged as f(args, ctx=C) versus pinned(args); distinct = distinct (program, strategy, input, ctx) evaluations')
+
+def replay(rep, data):
+    from xform import replay as rp
+    return rp(rep, data, PROP, classify)
